@@ -1103,3 +1103,28 @@ def find_rows(fv, root=None, ctx=None):
                 continue
             out.extend(find_rows(hv))
     return out
+
+
+
+def rule_pure_function(ctx, rule, fv, who):
+    """The function's result is a function of its arguments alone: it reads no static / global state (a cache keyed
+    on part of the arguments answers a later call with different arguments from the earlier one) and has no early
+    exit that bypasses the computation the other rules judge (every path ends in the tail expression)."""
+    import re as _re
+    statics = []
+    for n in fv.nodes:
+        if n.get("k") == "def" and str(n.get("dk", "")).startswith("Static") and not n.get("mac"):
+            c = ctx.prog.consts.get(norm_path(n.get("path", "")))
+            ty = (c or {}).get("ty", "") or n.get("ty", "")
+            # an immutable table (`static T: [u8; 256]`) is a constant; state is what can change between calls
+            if c is None or _re.search(r"OnceLock|OnceCell|Lazy|Mutex|RwLock|Atomic|Cell<|LocalKey|static mut", ty) \
+                    or "mutability: Mut" in str(n.get("dk", "")):
+                statics.append(n)
+    ctx.check(rule, "%s:no_global_state" % who, not statics, "reads no static item",
+              "`%s` reads the static `%s`: its result can depend on earlier calls (e.g. a memo table keyed on fewer "
+              "arguments than the result depends on)" % (who, norm_path(statics[0].get("path", "")) if statics else ""),
+              line_of(statics[0]) if statics else None)
+    rets = [n for n in fv.nodes if n.get("k") == "ret" and fv.enclosing(n, ("closure",)) is None]
+    ctx.check(rule, "%s:single_exit" % who, not rets, "every path ends in the tail expression",
+              "`%s` has an early `return`: that exit hands out a value the decode/table rules do not judge" % who,
+              line_of(rets[0]) if rets else None)
